@@ -8,11 +8,11 @@ git checkout -q -- . ; rm -rf _cb
 cmake -G Ninja -B _cb -S . >/dev/null 2>&1 && cmake --build _cb >/dev/null 2>&1 || { echo "BASE BUILD FAILED"; exit 2; }
 cmd=${DEMO//WT/$WT}
 bash -c "${cmd//LIBDIR/_cb} -o $SD/demo_base_c" || { echo "DEMO BASE BUILD FAILED"; exit 2; }
-( cd $SD && timeout 120 ./demo_base_c >/dev/null 2>&1 ); echo "demo without patch: exit $?"
+( cd $SD && timeout 120 ./demo_base_c $DEMO_ARGS >/dev/null 2>&1 ); echo "demo without patch: exit $?"
 git apply $SD/patch.diff || { echo "PATCH DOES NOT APPLY"; exit 2; }
 cmake --build _cb >/dev/null 2>&1 || { echo "PATCHED BUILD FAILED"; exit 2; }
 bash -c "${cmd//LIBDIR/_cb} -o $SD/demo_patched_c" || { echo "DEMO PATCHED BUILD FAILED"; exit 2; }
-( cd $SD && timeout 120 ./demo_patched_c >/dev/null 2>&1 ); echo "demo with patch: exit $?"
+( cd $SD && timeout 120 ./demo_patched_c $DEMO_ARGS >/dev/null 2>&1 ); echo "demo with patch: exit $?"
 ctest --test-dir _cb -j8 --timeout 900 2>&1 | tail -4
 for t in _cb/bidib_*_tests; do ( cd _cb && ./$(basename $t) 2>&1 | grep -c "\[       OK \]" ); done | paste -sd+ | bc | sed 's/^/cmocka cases OK: /'
 git checkout -q -- . ; rm -rf _cb
